@@ -104,6 +104,7 @@ class Translator:
         self.out: list[str] = []
         self.cur = ""
         self.uses_abstract = False
+        self.inst: dict[tuple[str, str], bool] = {}     # isinstance(p, C) tests with a fixed outcome (see translate_function)
 
     # ------------------------------------------------------------------ classes
     def is_dataclass(self, c: ast.ClassDef) -> dict:
@@ -252,7 +253,33 @@ class Translator:
         ctx = {"validator": validator, "narrow": narrow, "optional": False, "params": params}
         # first pass to find out whether the result is optional (a `return super()...` occurs)
         ctx["optional"] = any(isinstance(n, ast.Return) and self.is_super_call(n.value) for n in ast.walk(fd))
-        txt, ty = self.block(body, env, ctx)
+        # `isinstance(p, C)` on a parameter declared with a base type, C one of the translated records, in a function that
+        # defers to `super()` otherwise: the function is translated for the case that the test HOLDS (p has type C, the
+        # test is `true`), and a second time with the test `false` as `<name>_other` — which must be `none` (the super call)
+        cands = []
+        for n in ast.walk(fd):
+            if isinstance(n, ast.Call) and isinstance(n.func, ast.Name) and n.func.id == "isinstance" and len(n.args) == 2 \
+                    and isinstance(n.args[0], ast.Name) and isinstance(n.args[1], ast.Name):
+                pn, cn = n.args[0].id, n.args[1].id
+                if pn in params[1:] and cn in STRUCTS and env.get(pn) != cn and ctx["optional"] and (pn, cn) not in cands:
+                    cands.append((pn, cn))
+        other_txt = None
+        if cands:
+            for pn, cn in cands:
+                env[pn] = cn
+                narrow.append((pn, cn))
+            saved_inst = dict(self.inst)
+            try:
+                for pc in cands:
+                    self.inst[pc] = False
+                other_txt, _ = self.block(body, dict(env), ctx)
+                for pc in cands:
+                    self.inst[pc] = True
+                txt, ty = self.block(body, env, ctx)
+            finally:
+                self.inst = saved_inst
+        else:
+            txt, ty = self.block(body, env, ctx)
         name = self.lean_name(cname, fd.name)
         if validator:
             if ty != "bool":
@@ -275,6 +302,9 @@ class Translator:
             self.out.append(f"/-- `{where}`: the parameter `{p}` is handled here only when `isinstance({p}, {c})` -/\n"
                             f"def {name}_narrow : String := \"{c}\"")
         self.out.append(f"@[grind] def {name} {pre}{' '.join(binder)} : {rty} :=\n  {txt}")
+        if other_txt is not None:
+            self.out.append(f"/-- `{where}` when the `isinstance` test on `{cands[0][0]}` FAILS (must be the `super()` call: `none`) -/\n"
+                            f"@[grind] def {name}_other {pre}{' '.join(binder)} : {rty} :=\n  {other_txt}")
         self.sigs[(cname, fd.name)] = [env[p] for p in (params[1:] if cname else params)]
         return name, ("?" + ty if ctx["optional"] else ty)
 
@@ -334,7 +364,8 @@ class Translator:
             r_txt, r_ty = self.block(rest, env2, ctx)
             return f"(let {mangle(tg.id)} := {txt}; {r_txt})", r_ty
         if isinstance(st, ast.If) and not st.orelse and isinstance(st.test, ast.BoolOp) and isinstance(st.test.op, ast.Or) \
-                and self.isinstance_guard(st.test.values[0]) is not None and self.terminates(st.body):
+                and self.isinstance_guard(st.test.values[0]) is not None and self.terminates(st.body) \
+                and self.isinstance_guard(st.test.values[0]) not in self.inst:
             # `if not isinstance(p, C) or A or B: <exit>`  ==  `if not isinstance(p, C): <exit>` ; `if A or B: <exit>`
             # (Python evaluates A, B only when the isinstance test passed: they see p narrowed)
             vals = st.test.values
@@ -352,7 +383,7 @@ class Translator:
                 c_txt = self.cond(st.test, env)
                 return self.ite(c_txt, a_txt, a_ty, b_txt, b_ty)
             g = self.isinstance_guard(st.test)
-            if g is not None and g[0] in env:
+            if g is not None and g[0] in env and g not in self.inst:
                 p, c = g
                 if len(st.body) == 1 and isinstance(st.body[0], ast.Raise):
                     exc = st.body[0].exc
@@ -464,6 +495,10 @@ class Translator:
                 self.check_args(aty, dunder, [bty])
                 return f"({nm} {self.atom(a)} {self.atom(b)})", rty
             raise Unsupported(where, f"`{sym}` on {aty}, {bty}")
+        if isinstance(e, ast.Call) and isinstance(e.func, ast.Name) and e.func.id == "isinstance" and len(e.args) == 2 \
+                and isinstance(e.args[0], ast.Name) and isinstance(e.args[1], ast.Name) \
+                and (e.args[0].id, e.args[1].id) in self.inst:
+            return ("true" if self.inst[(e.args[0].id, e.args[1].id)] else "false"), "bool"
         if isinstance(e, ast.Call):
             return self.call(e, env)
         raise Unsupported(where, f"expression `{ast.unparse(e)}` not supported")
